@@ -13,9 +13,12 @@ CAUGHT = {
     "C15-2": {"C15": "violation"}, "C16-2": {"C16": "violation"}, "C18-2": {"C18": "violation"}, "C19-2": {"C19": "violation"},
     "C01-3": {"C01": "violation"}, "C02-3": {"C02": "violation"}, "C03-3": {"C03": "violation"},
     "C04-3": {"C05": "violation", "C04": "not reported (needs two concurrent requests: C05's domain)"},
-    "C07-3": {"C04": "violation", "C07": "tie"}, "C08-3": {"C08": "violation", "C07": "violation"}, "C11-3": {"C11": "violation"},
+    "C07-3": {"C04": "violation", "C07": "violation"}, "C08-3": {"C08": "violation", "C07": "violation"}, "C11-3": {"C11": "violation"},
     "C12-3": {"C12": "violation"}, "C13-3": {"C13": "violation"}, "C14-3": {"C14": "violation"},
     "C17-3": {"C17": "violation"}, "C20-3": {"C20": "violation"},
+    "C05-3": {"C05": "violation"}, "C06-3": {"C06": "violation"}, "C09-3": {"C09": "violation", "C01": "violation"},
+    "C10-3": {"C10": "violation"}, "C15-3": {"C15": "violation", "C11": "not reported"}, "C16-3": {"C16": "violation"},
+    "C18-3": {"C18": "violation"}, "C19-3": {"C19": "violation", "C04": "violation"},
 }
 for d in sorted(os.listdir(root)):
     p = os.path.join(root, d)
